@@ -1,4 +1,5 @@
 """C04 - michael_scott, ramalhete and nikolaev queues are linearizable FIFO queues"""
+import re, os
 import xvlib as X
 from xvlib import log
 from props.common import *
@@ -26,11 +27,41 @@ def replay(sig, V, wd):
     print(out[-3000:]); print('REPLAY status=%d %s' % (st, det))
     return 1 if st != 0 else 0
 
+def classify_threshold(ctx, harness, f, name):
+    """pattern 'threshold-exhausted-by-delayed-poppers' (known finding, see C05): nikolaev_queue, a pushed value is not delivered
+    AND at least 3*entries_per_node pop calls that answered 'empty' overlap that push in the history"""
+    out = {'harness': name, 'pattern': 'other'}
+    case = f.get('case', '')
+    head = case.split('\n')[0]
+    me = re.search(r'epn=(\d+)', head)
+    if 'q=nik ' not in head + ' ' or not me or not ('lost' in f.get('detail', '') or 'not linearizable' in f.get('detail', '')):
+        return out
+    epn = 1
+    while epn < int(me.group(1)): epn *= 2
+    (st, det), txt = X.replay_case(harness, case, ctx['wd'], ())
+    hist = []
+    for l in txt.splitlines():
+        mm = re.match(r'HIST T(\d+) (\w+)(?: (\S+))? -> (\S+) \[(\d+),(-?\d+)\]', l)
+        if mm: hist.append((mm.group(2), mm.group(4), int(mm.group(5)), int(mm.group(6))))
+    for nm, res, a, b in hist:
+        if nm == 'push' and res == 'ok':
+            n = sum(1 for n2, r2, a2, b2 in hist if n2 in ('pop', 'tpop') and r2 == 'empty' and a2 < b and b2 > a)
+            if n >= 3 * epn:
+                out['pattern'] = 'threshold-exhausted-by-delayed-poppers'
+    return out
+
 def run(ctx):
     rng, tier = ctx['rng'], ctx['tier']
     thorough = tier == 'thorough'
     Hs = ctx['H']
     run_corpus(ctx, Hs['uq_hp'], 'C04')
+    # the recorded schedule of the known finding (GC-reclaimer harness: the schedule counts its steps)
+    kf = os.path.join(X.VERIF, 'corpus', 'C04', 'nik-threshold-delayed-poppers.known')
+    if os.path.exists(kf) and 'uq_gc' in Hs:
+        txt = open(kf).read()
+        (st0, det0), _ = X.replay_case(Hs['uq_gc'], txt, ctx['wd'])
+        if st0 != 0:
+            report_impl(ctx, st0, det0, txt, classify_threshold(ctx, Hs['uq_gc'], {'case': txt, 'detail': det0}, 'uq_gc'))
     # ---- correspondence: MS queue model (GC reclaimer instance)
     cases = []
     for k in range(10 if thorough else 5):
@@ -63,5 +94,5 @@ def run(ctx):
             jobs.append((cfg, [queue_program(rng, 1, 4 * epn + 6, pushy=0.6)[0]], 'opseq', 1, ctx['seed'], ()))
             jobs.append((cfg, [['push %d' % i for i in range(1, 2 * epn + 2)] + ['pop'] * (2 * epn + 2)], 'opseq', 1, ctx['seed'], ()))
             jobs.append((cfg, queue_program(rng, 2, 2 * epn), 'random', n // 2, ctx['seed'], ()))
-        fs = do_search(ctx, H, jobs, name, classify=lambda c, h, f, name=name: {'harness': name})
+        fs = do_search(ctx, H, jobs, name, classify=lambda c, h, f, name=name: classify_threshold(c, h, f, name))
     return tie
